@@ -64,7 +64,7 @@ VARIANTS = {
 
 SAN_ENV = {
     "ASAN_OPTIONS": "abort_on_error=1:detect_leaks=0:allocator_may_return_null=1:detect_stack_use_after_return=0:"
-                    "symbolize=1:quarantine_size_mb=16:malloc_context_size=8",
+                    "symbolize=1:quarantine_size_mb=16:malloc_context_size=8:hard_rss_limit_mb=12288",
     "UBSAN_OPTIONS": "print_stacktrace=1:abort_on_error=1:symbolize=1",
     "TSAN_OPTIONS": "halt_on_error=1:abort_on_error=1:second_deadlock_stack=1:history_size=4",
     "ASAN_SYMBOLIZER_PATH": "/usr/bin/llvm-symbolizer-14",
